@@ -59,6 +59,15 @@ def gen_cases(ctx):
 
 
 def run(ctx, res):
+    if ctx.scale == 1:
+        res.notes.append('probe (implementation only): reset() at any point of a stream (also right after a complete valid header), then another stream: the outcomes must be those of a fresh decoder and satisfy the C07 oracle')
+        for k in range(ctx.n(150, 3000)):
+            bad = wire.reset_probe(ctx.rng('reset%d' % k))
+            res.evaluations += 1
+            res.count('reset_probe')
+            if bad:
+                res.failures.append(dict(signature='C07: reset probe', what=bad, case=dict(probe='reset', k=k)))
+                break
     res.rule = ('5-byte headers over the lattice ml in {-2^31, .., -1,0,1,4,5,6, limit-1,limit,limit+1, .., 2^31-1} x '
                 'op in {0..7,127,128,255} (exhaustive), alone / with tails / byte-wise; random bytes, valid frames followed '
                 'by a lattice header, mutated valid streams; frames declaring limit-1 .. limit+300 whose whole body is present when the header completes (one read / split header / pipelined); random chunkings; non-trivial = at least 5 bytes; distinct by '
@@ -78,6 +87,8 @@ def run(ctx, res):
 
 
 def replay(ctx, case):
+    if case.get('probe') == 'reset':
+        return wire.reset_probe(ctx.rng('reset%d' % case['k']))
     chunks = [common.unjbytes(c) for c in case['chunks']]
     obs, recs = wire.drive_unpack(chunks)
     return wire.oracle_c07(chunks, recs)
